@@ -12,7 +12,8 @@ from lib.evidence import Report
 FAULTS = ['predict_key', 'dtype_u', 'dtype_f', 'drop_problem_class', 'drop_sweeper_class', 'drop_sweeper_params',
           'drop_level_params', 'no_space_transfer', 'drop_num_nodes', 'bad_quad_type', 'bad_node_type', 'bad_QI',
           'bad_problem_param', 'set_status_attr', 'set_level_param_attr', 'set_readonly_param', 'bad_initial_guess',
-          'bad_residual_type']
+          'bad_residual_type', 'residual_type_max_abs', 'residual_type_fullrel', 'residual_type_abs', 'residual_type_full_abs_rel',
+          'initial_guess_Spread', 'QI_lu']
 
 
 def enumerate_descriptions(wd, maxlen, full):
